@@ -13,7 +13,7 @@ pub struct C18;
 #[derive(Clone, Debug, Serialize, Deserialize)]
 pub struct Inst {
     /// template: 0 rect, 1 circle, 2 group, 3 symbol, 4 nested group, 5 inline rect (rendered itself too);
-    /// fixed-size ones: 6 rect, 7 circle, 8 ellipse, 9 group (all in specs), 10 group in <defs>;
+    /// fixed-size ones: 6 rect, 7 circle, 8 ellipse, 9 group, 13 circle given by wh (all in specs), 10 group in <defs>;
     /// 11 group whose first child refers to a later child of the same template by id, 12 group with parameter defaults on itself
     pub tpl: u8,
     pub w: f64,
@@ -48,7 +48,7 @@ const XFS: [&str; 4] = ["rotate(30)", "scale(2)", "translate(3, -1) rotate(-90)"
 const DIRS: [&str; 4] = ["h", "H", "v", "V"];
 
 fn inst() -> impl Strategy<Value = Inst> {
-    (0u8..13, crate::gen::nice_pos(12), crate::gen::nice_pos(8), 0..LABELS.len(), 0..CLASSES.len(), any::<bool>(), prop::option::of((crate::gen::nice(40), crate::gen::nice(40))), any::<u8>(), any::<u8>(), crate::gen::nice_pos(6))
+    (0u8..14, crate::gen::nice_pos(12), crate::gen::nice_pos(8), 0..LABELS.len(), 0..CLASSES.len(), any::<bool>(), prop::option::of((crate::gen::nice(40), crate::gen::nice(40))), any::<u8>(), any::<u8>(), crate::gen::nice_pos(6))
         .prop_map(|(tpl, w, h, l, c, id, xy, m, m2, gap)| Inst {
             tpl,
             w: w.max(1.0),
@@ -60,7 +60,7 @@ fn inst() -> impl Strategy<Value = Inst> {
             style: if m & 1 != 0 { Some("stroke: green; opacity: 0.5".to_string()) } else { None },
             class: if m & 2 != 0 { Some(CLASSES[(m >> 2) as usize % CLASSES.len()].to_string()) } else { None },
             xf: if m2 % 3 == 0 { Some(XFS[(m2 / 3) as usize % XFS.len()].to_string()) } else { None },
-            rel: if matches!(tpl, 6..=8) && m2 % 2 == 1 { Some(((m2 / 2) % 4, gap)) } else { None },
+            rel: if matches!(tpl, 6..=8 | 13) && m2 % 2 == 1 { Some(((m2 / 2) % 4, gap)) } else { None },
         })
 }
 
@@ -88,6 +88,8 @@ fn templates() -> XEl {
 fn fixed_templates(t: XEl) -> XEl {
     t.kid(XEl::new("rect").a("id", "fr").a("wh", "4 2"))
         .kid(XEl::new("circle").a("id", "fc").a("r", "2"))
+        // a circle given by its size rather than its radius
+        .kid(XEl::new("circle").a("id", "fw").a("wh", "4"))
         .kid(XEl::new("ellipse").a("id", "fe").a("rx", "3").a("ry", "1"))
         .kid(XEl::new("g").a("id", "fg").kid(XEl::new("rect").a("wh", "6 2")).kid(XEl::new("circle").a("cx", "6").a("cy", "1").a("r", "1")))
         // a group that declares defaults for its parameters on itself: the instance's bindings take their place
@@ -106,7 +108,7 @@ fn inline_template() -> Vec<XEl> {
 }
 
 fn tpl_id(t: u8) -> &'static str {
-    ["tr", "tc", "tg", "ts", "tn", "ti", "fr", "fc", "fe", "fg", "tf", "tw", "td"][t as usize % 13]
+    ["tr", "tc", "tg", "ts", "tn", "ti", "fr", "fc", "fe", "fg", "tf", "tw", "td", "fw"][t as usize % 14]
 }
 
 fn reuse_xml(k: usize, i: &Inst) -> XEl {
@@ -185,9 +187,10 @@ fn inline_xml(k: usize, i: &Inst) -> XEl {
         g
     };
     let fixed_group = || XEl::new("g").kid(XEl::new("rect").a("wh", "6 2")).kid(XEl::new("circle").a("cx", "6").a("cy", "1").a("r", "1"));
-    match i.tpl % 13 {
+    match i.tpl % 14 {
         6 => deco(at(XEl::new("rect").a("wh", "4 2")), "", "fr"),
         7 => deco(at(XEl::new("circle").a("r", "2")), "", "fc"),
+        13 => deco(at(XEl::new("circle").a("wh", "4")), "", "fw"),
         8 => deco(at(XEl::new("ellipse").a("rx", "3").a("ry", "1")), "", "fe"),
         9 => deco(group_at(fixed_group()), "", "fg"),
         12 => deco(group_at(XEl::new("g").a("w", num(i.w)).a("label", i.label.clone()).kid(XEl::new("rect").a("wh", "$w 2").a("text", "$label"))), "", "td"),
@@ -234,7 +237,7 @@ fn inline_xml(k: usize, i: &Inst) -> XEl {
 pub fn docs(c: &Case) -> (String, String) {
     let mk = |by_hand: bool| -> String {
         let mut kids: Vec<X> = Vec::new();
-        let uses_inline = c.insts.iter().any(|i| i.tpl % 13 == 5);
+        let uses_inline = c.insts.iter().any(|i| i.tpl % 14 == 5);
         kids.push(X::El(defs_template()));
         kids.push(X::El(XEl::new("rect").a("id", "base").a("xy", "50 50").a("wh", "10 6")));
         if c.specs_at == 0 {
@@ -325,7 +328,7 @@ impl Property for C18 {
     fn judge(&self, case: &Case, _strict: bool) -> Verdict {
         let (with_reuse, by_hand) = docs(case);
         let cfg = Cfg::plain();
-        let nested = case.insts.iter().any(|i| i.tpl % 13 == 4);
+        let nested = case.insts.iter().any(|i| i.tpl % 14 == 4);
         let distinct_bindings = case.insts.len() >= 2 && case.insts.windows(2).any(|w| w[0].w != w[1].w || w[0].label != w[1].label);
         let labels: Vec<String> = case.insts.iter().map(|i| format!("tpl:{}", tpl_id(i.tpl))).collect::<std::collections::BTreeSet<_>>().into_iter().collect();
         match (transform(&with_reuse, &cfg), transform(&by_hand, &cfg)) {
@@ -346,9 +349,9 @@ impl Property for C18 {
                 } else {
                     let i = cx.iter().zip(cy.iter()).position(|(p, q)| p != q).unwrap_or(cx.len().min(cy.len()));
                     // is it (only) an instance of the template with an internal forward reference?
-                    if case.insts.iter().any(|i| i.tpl % 13 == 11) {
+                    if case.insts.iter().any(|i| i.tpl % 14 == 11) {
                         let mut reduced = case.clone();
-                        reduced.insts.retain(|i| i.tpl % 13 != 11);
+                        reduced.insts.retain(|i| i.tpl % 14 != 11);
                         if reduced.insts.is_empty() || self.judge(&reduced, _strict).status == crate::engine::Status::Pass {
                             let i = cx.iter().zip(cy.iter()).position(|(p, q)| p != q).unwrap_or(cx.len().min(cy.len()));
                             return Verdict::fail(
